@@ -82,7 +82,14 @@ def call(eng, e, st):
         meth = f.attr
         # super().__init__()
         if isinstance(f.value, ast.Call) and isinstance(f.value.func, ast.Name) and f.value.func.id == "super":
-            eval_args(eng, e, st)
+            sargs, skw = eval_args(eng, e, st)
+            # super().m(...): the first repository base class defining m, called on self (bases outside the repository,
+            # e.g. dict / ABC, have no effect that is tracked)
+            cur = eng.func.cls if eng.func is not None else None
+            bases = [b for b in eng.index.class_bases.get(cur, []) if b in eng.index.classes] if cur else []
+            sfi = eng.index.method(bases[0], meth) if bases else None
+            if sfi is not None and "self" in st.env and eng.inline_depth == 0:
+                return call_repo(eng, sfi, st.env["self"], sargs, skw, st, e)
             return Val.of_none()
         base = eng.ev(f.value, st)
         args, kw = eval_args(eng, e, st)
@@ -153,6 +160,8 @@ def call(eng, e, st):
             if base.num is not None or base.boo is not None or base.poly is not None:
                 eng.safety_item(base, st, e)
                 return Val(num=base.get_num()) if base.num is not None or base.poly else base
+        if meth == "update" and ("compute_posterior" in kw or "hyp" in kw):
+            return _gp_update(eng, base, args, kw, st, e)  # gpyreg GP.update (keyword signature), not dict.update
         if meth in MUTATING_METHODS and base.ref is not None:
             if base.tup is not None and meth == "append" and base.py == ("list",):
                 lk, lkey = eng.lvalue(f.value, st)
@@ -376,9 +385,14 @@ def call_random(eng, meth, args, kw, st, e):
             nm = c.fresh("randint")
             f = c.uf(nm, *([z3.IntSort()] * (len(shp) + 1)))
 
+            hi_int = _structurally_int(z3.simplify(hi.r))
+
             def el(*i):
                 t = f(*i)
                 c.add_fact(z3.And(_real(lo.r) <= t, t < _real(hi.r)), key=("randint", nm, tuple(str(x) for x in i)))
+                if hi_int:
+                    # integer draw below an integer bound: t <= hi - 1 (stated explicitly to keep queries linear)
+                    c.add_fact(z3.ToReal(t) <= _real(hi.r) - 1, key=("randint1", nm, tuple(str(x) for x in i)))
                 return N(t)
 
             return Val.of_arr(Arr(len(shp), shp, el))
@@ -390,6 +404,19 @@ def call_random(eng, meth, args, kw, st, e):
             r = n_fresh(c.fresh("rand"))
             c.add_fact(z3.And(r.r >= 0, r.r < 1))
             return Val.of_num(r)
+        if meth == "rand" and len(args) == 1 and args[0].num is not None and args[0].arr is None:
+            # np.random.rand(n): vector of n draws in [0, 1)
+            nm = c.fresh("randv")
+            f = c.uf(nm, z3.IntSort(), z3.RealSort())
+            nn = args[0].get_num().r
+            nn = nn if z3.is_int(nn) else z3.ToInt(nn)
+
+            def el1(i):
+                t = f(i)
+                c.add_fact(z3.And(t >= 0, t < 1), key=("randv", nm, str(i)))
+                return N(t)
+
+            return Val.of_arr(Arr(1, (nn,), el1))
         if meth == "permutation" and args and args[0].arr is not None and args[0].arr.ndim == 2:
             a = args[0].arr
             nm = c.fresh("rperm")
@@ -397,8 +424,10 @@ def call_random(eng, meth, args, kw, st, e):
             inv = c.uf(nm + "!inv", z3.IntSort(), z3.IntSort())
             k = z3.Int(nm + "!k")
             n = a.shape[0]
-            c.add_fact(z3.ForAll([k], z3.Implies(z3.And(0 <= k, k < n), z3.And(0 <= perm(k), perm(k) < n, inv(perm(k)) == k)), patterns=[perm(k)]))
-            c.add_fact(z3.ForAll([k], z3.Implies(z3.And(0 <= k, k < n), z3.And(0 <= inv(k), inv(k) < n, perm(inv(k)) == k)), patterns=[inv(k)]))
+            # a permutation of [0,n) extended to a bijection of Z (identity outside): inverse equations without guards
+            # (guarded versions make E-matching loop when the guard is not provable)
+            c.add_fact(z3.ForAll([k], z3.And(inv(perm(k)) == k, z3.Implies(z3.And(0 <= k, k < n), z3.And(0 <= perm(k), perm(k) < n))), patterns=[perm(k)]))
+            c.add_fact(z3.ForAll([k], z3.And(perm(inv(k)) == k, z3.Implies(z3.And(0 <= k, k < n), z3.And(0 <= inv(k), inv(k) < n))), patterns=[inv(k)]))
             r = Arr(2, a.shape, lambda i, j: a.elem(perm(i), j), a.dtype)
             r.rowperm = (perm, inv, a)
             return Val.of_arr(r)
@@ -656,6 +685,7 @@ def apply_contract(eng, fi, c, self_val, args, kw, st, e):
     k = eng.call_counts.get(fi.name, 0)
     eng.call_counts[fi.name] = k + 1
     tag = "call[%s]#%d" % (fi.name, k)
+    eng.used_contracts.add(fi.qual)
     # the callee's typing of paths rooted at its parameters applies to the corresponding caller paths
     for tp, tspec in c.types.items():
         try:
@@ -784,6 +814,16 @@ def _gp_predict(eng, base, args, kw, st, e):
 
 
 EXTERNAL_MODELS = {"erfcinv": _erfcinv}
+def _gp_update(eng, base, args, kw, st, e):
+    """T4 (assumed contract on gpyreg): GP.update recomputes the posterior; the training set (X, y, s2) and temporary_data
+    are left as they are."""
+    if base is not None and base.ref is not None:
+        eng.havoc_prefix(st, base.ref + ".posteriors")
+        eng.havoc_path(st, base.ref + ".posteriors")
+    eng.external_effects("update", base, e)
+    return Val.of_none()
+
+
 EXTERNAL_METHOD_MODELS = {"predict": _gp_predict}
 
 
@@ -897,9 +937,27 @@ def sf_ite(eng, e, st):
     return val_ite(t, eng.ev(e.args[1], st), eng.ev(e.args[2], st))
 
 
+def _structurally_int(t):
+    if z3.is_int(t):
+        return True
+    if z3.is_rational_value(t):
+        return t.denominator_as_long() == 1
+    if z3.is_app(t):
+        k = t.decl().kind()
+        if k == z3.Z3_OP_TO_REAL:
+            return True
+        if k == z3.Z3_OP_ITE:
+            return _structurally_int(t.arg(1)) and _structurally_int(t.arg(2))
+        if k in (z3.Z3_OP_ADD, z3.Z3_OP_SUB, z3.Z3_OP_MUL, z3.Z3_OP_UMINUS):
+            return all(_structurally_int(c) for c in t.children())
+    return False
+
+
 def sf_isint(eng, e, st):
     n = eng.ev(e.args[0], st).get_num()
-    return Val.of_bool(z3.BoolVal(True) if n.is_int() else z3.IsInt(_real(n.r)))
+    if n.is_int() or _structurally_int(z3.simplify(n.r)):
+        return Val.of_bool(True)  # integer by construction (ints, ToReal of ints, sums/products/ite of such)
+    return Val.of_bool(z3.IsInt(_real(n.r)))
 
 
 def sf_isnone(eng, e, st):
@@ -960,6 +1018,15 @@ def sf_count_true(eng, e, st):
     return Val.of_num(N(npmodel.count_true(a)))
 
 
+def sf_sum_of(eng, e, st):
+    v = eng.ev(e.args[0], st)
+    a = v.get_arr()
+    r = npmodel.sum_real(a) if (a is not None and a.ndim == 1 and a.dtype == "num") else None
+    if r is None:
+        raise Undecided("sum_of() needs a 1-D real array")
+    return Val.of_num(r)
+
+
 def _as_pt(eng, v):
     if v.py is not None and v.py[0] == "pt":
         return v.py[1]
@@ -994,6 +1061,25 @@ def _ptfun(name, res_pt=True):
         return Val.of_num(N(ctx().uf(name, PT, z3.RealSort())(p)))
 
     return f
+
+
+def sf_acqv(eng, e, st):
+    """AcqV(point, t): value of the LCB acquisition at a point for evaluation count t (fixed GP state / beta argument)."""
+    PT = z3.ArraySort(z3.IntSort(), z3.RealSort())
+    p = _as_pt(eng, eng.ev(e.args[0], st))
+    t = eng.ev(e.args[1], st).get_num().r
+    return Val.of_num(N(ctx().uf("AcqV", PT, z3.IntSort(), z3.RealSort())(p, t if z3.is_int(t) else z3.ToInt(t))))
+
+
+def sf_argsort_rank(eng, e, st):
+    """argsort_rank(idx, i): position of index i in idx = np.argsort(a) (the inverse permutation)."""
+    a = eng.ev(e.args[0], st).get_arr()
+    pm = getattr(a, "perm", None) if a is not None else None
+    if pm is None:
+        raise Undecided("argsort_rank(): not the result of np.argsort")
+    pm[0](z3.IntVal(0))  # make sure the permutation axioms are stated
+    i = eng.as_int(eng.ev(e.args[1], st))
+    return Val.of_num(N(pm[1](i)))
 
 
 def sf_feasx(eng, e, st):
@@ -1067,7 +1153,18 @@ def sf_lemma(eng, e, st):
     return Val.of_bool(lemmas.instance(name, args))
 
 
+def sf_colperm(eng, e, st):
+    """colperm(A, j): for A = transpose(rnd.permutation(L)) the index of the row of L that became column j (bijection facts
+    come with the model of rnd.permutation)."""
+    a = eng.ev(e.args[0], st).get_arr()
+    cp = getattr(a, "colperm", None) if a is not None else None
+    if cp is None:
+        raise Undecided("colperm(): the array is not the transpose of a row permutation")
+    return Val.of_num(N(cp[0](eng.as_int(eng.ev(e.args[1], st)))))
+
+
 SPECFUNCS = {
+    "colperm": sf_colperm,
     "lemma": sf_lemma,
     "fmax": sf_fmax,
     "ghost_sqrt": sf_ghost_sqrt, "abs": sf_abs,
@@ -1075,7 +1172,7 @@ SPECFUNCS = {
     "upd": sf_upd,
     "row": sf_row, "pt": sf_pt, "invt": _ptfun("InvT"), "fwdt": _ptfun("FwdT"), "cval": _ptfun("Cval", False), "feasx": sf_feasx,
     "pteq": sf_pteq, "ptat": sf_ptat,
-    "count_true": sf_count_true,
+    "count_true": sf_count_true, "sum_of": sf_sum_of, "acqv": sf_acqv, "argsort_rank": sf_argsort_rank,
     "old": sf_old, "implies": sf_implies, "iff": sf_iff, "forall": sf_forall, "exists": sf_exists, "rows": sf_rows,
     "cols": sf_cols, "ite": sf_ite, "isint": sf_isint, "isnone": sf_isnone, "pw": sf_pw, "ghost": sf_ghost,
     "ghostp": sf_ghostp, "same": sf_same, "truthy": sf_truthy, "isfinite": sf_isfinite, "isnan": sf_isnan, "num": sf_num,
